@@ -74,6 +74,22 @@ def unify(p, t, env=None):
                 break
         if env is not None:
             return env
+        # if c {A} else {B}  ==  if !c {B} else {A}: a pattern written with one orientation of an integer comparison (or of an
+        # equality) also matches the other
+        if len(p) == 4 and len(t) == 4 and p[0] == "if" and t[0] == "if" and isinstance(t[1], tuple) and len(t[1]) == 5 and t[1][0] == "op" and t[3] != ("unit",):
+            INT = ("i8", "i16", "i32", "i64", "i128", "isize", "u8", "u16", "u32", "u64", "u128", "usize")
+            neg = {"eq": "ne", "ne": "eq"}
+            if t[1][2] in INT:
+                neg.update({"lt": "ge", "ge": "lt", "le": "gt", "gt": "le"})
+            if t[1][1] in neg:
+                t2 = ("if", ("op", neg[t[1][1]]) + t[1][2:], t[3], t[2])
+                env = env0
+                for a, b in zip(p, t2):
+                    env = unify(a, b, env)
+                    if env is None:
+                        break
+                if env is not None:
+                    return env
         # arms of a match on distinct constructors commute: try the other orders of the term's arms
         if len(p) == len(t) and 4 <= len(t) <= 6 and p[0] == "match" and t[0] == "match" and p[-1] != "...":
             import itertools
